@@ -16,7 +16,7 @@ LEVEL = 'fault_enumeration'
 EXHAUSTIVE = True
 TECHNIQUE = 'fault enumeration: n good records x every position k x 19 fault kinds x {VBS, 1014} x 3 codecs, plus Hypothesis message variety; expected record number and raw bytes derived from an independent framing and decoding of the faulty file'
 RULE = ('Files of n = 1..6 (thorough 1..12) good IPM records get one fault planted in record k for every k in 1..n: truncated '
-        'record, oversized length (also 6001, 0x40404040, 0x20202020, 0x30303030, 0xf0f0f0f0, 0xffffffff, 0x80000000, 0x7fffffff, little-endian), inflated length, record body cut to 1/4/19/20 bytes, header only, garbage body, non-numeric MTI, undecodable MTI, unconfigured bitmap bit, non-digit length '
+        'record, oversized length (also 6001, 0x40404040, 0x20202020, 0x30303030, 0xf0f0f0f0, 0xffffffff, 0x80000000, 0x7fffffff, little-endian), inflated length, record body cut to 1/4/19/20 bytes, header only, last element cut by 1 / 3 bytes, last variable-length prefix raised by 1 / 9, garbage body, non-numeric MTI, undecodable MTI, unconfigured bitmap bit, non-digit length '
         'prefix, bad integer, bad date, trailing byte, bad PDS content, bad ICC content, negative length prefix; VBS and 1014; '
         'ascii, latin_1, cp500; message shapes enumerated and drawn by Hypothesis. Oracle: the reference framing of the faulty '
         'file + reference decoding of each record gives k and the raw bytes; IpmReader must deliver records 1..k-1 equal to the '
@@ -33,7 +33,8 @@ KINDS = ['truncated', 'oversized-length', 'inflated-length', 'mti-nonnumeric', '
          'nondigit-prefix', 'bad-int', 'bad-date', 'trailing-byte', 'bad-pds', 'bad-icc', 'negative-prefix',
          'short-body-1', 'short-body-4', 'short-body-19', 'short-body-20', 'header-only', 'garbage-body',
          'length-max+1', 'length-40404040', 'length-20202020', 'length-30303030', 'length-f0f0f0f0', 'length-ffffffff',
-         'length-80000000', 'length-7fffffff', 'length-little-endian']
+         'length-80000000', 'length-7fffffff', 'length-little-endian',
+         'cut-last-byte', 'cut-last-3', 'last-var-prefix+1', 'last-var-prefix+9']
 
 
 def base_message(i):
@@ -71,6 +72,24 @@ def plant(kind, rec, codec, config):
         if what == 'little-endian':
             return bytes(rec), int.from_bytes(len(rec).to_bytes(4, 'little'), 'big'), None
         return bytes(rec), int(what, 16), None
+    if kind in ('cut-last-byte', 'cut-last-3'):
+        # a correctly framed record whose last element is short of what its width / prefix says (the elements overrun the record)
+        n = 1 if kind == 'cut-last-byte' else 3
+        return (bytes(rec[:-n]), None, None) if len(rec) > 24 + n else None
+    if kind.startswith('last-var-prefix+'):
+        lens = [f for f in frames if f[0] == 'len']
+        if not lens:
+            return None
+        _, _, s0, e0 = max(lens, key=lambda f: f[2])
+        try:
+            cur = int(bytes(r[s0:e0]).decode(codec))
+        except ValueError:
+            return None
+        new = cur + int(kind.split('+')[1])
+        if new >= 10 ** (e0 - s0):
+            return None
+        r[s0:e0] = str(new).zfill(e0 - s0).encode(codec)
+        return bytes(r), None, None
     if kind == 'inflated-length':
         return bytes(rec), len(rec) + 3, None
     if kind == 'mti-nonnumeric':
@@ -255,6 +274,8 @@ def _check(data, blocked, codec, entries, tail, kw, src):
                 next(decoy)
             except StopIteration:
                 pass
+            except Exception as ex:  # noqa - the second file is well-formed throughout
+                return 'decoy', ex
         if style == 1 or (style == 2 and state['n'] % 2 == 1):
             state['it'] = iter(raw_reader)
         state['n'] += 1
@@ -270,6 +291,8 @@ def _check(data, blocked, codec, entries, tail, kw, src):
 
     for i, (kind, payload) in enumerate(entries, 1):
         what, val = step()
+        if what == 'decoy':
+            return 'spurious-error:second-reader', f'a second reader over a well-formed file, advanced in between, raised {val!r} (cause {getattr(val, "ex", None)!r})'
         if what == 'crash':
             return f'wrong-exception:{type(val).__name__}@{where(val)}', f'IpmReader raised {val!r} instead of the library error at record {i}'
         if what == 'end':
@@ -285,6 +308,8 @@ def _check(data, blocked, codec, entries, tail, kw, src):
             if why:
                 return 'delivered-differs', f'{form}: record {i} delivered before the fault differs from the reference reading: {why}'
     what, val = step()
+    if what == 'decoy':
+        return 'spurious-error:second-reader', f'a second reader over a well-formed file, advanced in between, raised {val!r} (cause {getattr(val, "ex", None)!r})'
     if what == 'crash':
         return f'wrong-exception:{type(val).__name__}@{where(val)}', f'IpmReader raised {val!r} instead of the library error after {len(entries)} records'
     if tail:
